@@ -295,6 +295,6 @@ func TestVerif_C12(t *testing.T) {
 		Name: "ci-sized",
 		Rule: "compactindexsized.Open / DB.Lookup / Bucket.Load on mutated valid index files: no panic, allocation <= 8*len+256KiB (+ one batch), no hang; outcome class = Coq model",
 		Seeds: vc12Seeds, Gen: vc12Gen, Exec: vc12Exec, Budget: vc12Budget, Witnesses: vc12Witnesses,
-		CoqImports: []string{"YF.C12_Check"}, CoqType: "sized_case", CoqChecker: vc12Flags, CoqCase: vc12CoqCase, MaxCoq: 1500,
+		CoqImports: []string{"YF.C12_Check"}, CoqType: "sized_case", CoqChecker: vc12Flags, CoqCase: vc12CoqCase, MaxCoq: 500,
 	})
 }
